@@ -13,7 +13,7 @@ ID = "C05"
 RUNS = {"quick": 12000, "thorough": 250000}
 BUDGET_S = {"quick": 60, "thorough": 900}
 RULE = ("seeded scenario scripts with a stop event at every kind of instant (absolute, or n-th take/enter/exit/enqueue + "
-        "{0,1us,poll-1,poll,poll+1,random}), (A,P,N,wait_tasks_timeout) configurations, short/long/never-ending tasks; "
+        "{0,1us,poll-1,poll,poll+1,random}), (A,P,N,wait_tasks_timeout) configurations, short/long/never-ending tasks, failing acks and hooks; "
         "non-trivial = overlap or a fault/stop fired; distinct = distinct interleaving signature")
 
 POLL_US = 300_000
